@@ -60,14 +60,17 @@ def worker_init(x64, repo: str) -> None:
     got = os.path.realpath(os.path.dirname(os.path.dirname(furax.__file__)))
     if got != os.path.realpath(src):
         raise HarnessError(f'furax imported from {got}, expected {src}')
-    if late:
-        import pkgutil
+    import pkgutil
 
-        for m in pkgutil.walk_packages(furax.__path__, 'furax.'):
-            try:
-                importlib.import_module(m.name)
-            except ImportError:   # optional third-party stacks (toast)
-                pass
+    for m in pkgutil.walk_packages(furax.__path__, 'furax.'):
+        try:
+            importlib.import_module(m.name)
+        except ImportError:   # optional third-party stacks (toast)
+            pass
+    from . import vid
+
+    vid.install()    # adversarial-but-legal id() inside the furax modules (see mc/vid.py)
+    if late:
         os.environ['JAX_ENABLE_X64'] = '1'
         jax.config.update('jax_enable_x64', True)
 
@@ -76,6 +79,10 @@ def run_shard(target: str, phase: str, cases: list, ctx: dict) -> dict:
     modname, fname = target.split(':')
     fn = getattr(importlib.import_module(modname), fname)
     t0 = time.time()
+    from . import vid
+
+    vid.install()
+    v0 = (vid.stats['calls'], vid.stats['reused'])
     try:
         out = fn(phase, cases, ctx)
     except CaseTimeout:
@@ -103,6 +110,8 @@ def run_shard(target: str, phase: str, cases: list, ctx: dict) -> dict:
             out = merge(out, part)
     out.setdefault('n', len(cases))
     out['cpu_s'] = time.time() - t0
+    out['vid_calls'] = vid.stats['calls'] - v0[0]
+    out['vid_reused'] = vid.stats['reused'] - v0[1]
     return out
 
 
